@@ -8,23 +8,23 @@ CHECKS = {
          "the property's own fault model (first frames once and in order, strays < 7 messages); payload observed through the 130816/126720 fallback definitions"),
  "C06": ("netsim", "3.C06", "loop-back over the simulated wire: real send() -> simulated gateway -> re-segmented stream -> real receive path of the same client type, framing judged at the sender's transport; complete sweep of 18 positions x 255 masks of USB corruption on sampled packets",
          "codec fix-points only; forwarding gateway stub (YD time/direction token, Actisense time token); asyncio stream semantics"),
- "C07": ("bussim", "3.C07", "replica agreement: one bus history delivered to nine differently-wired listeners (7 frame-level, 2 message-level), compared at every frame and message boundary",
+ "C07": ("bussim", "3.C07", "replica agreement: one bus history delivered to ten differently-wired listeners sharing settings drawn per run (7 frame-level, 2 message-level, 1 that receives each message through a format drawn per message), compared at every frame and message boundary",
          "weakest fit (quantifier over inputs): frame values sampled; the simulation contributes frame-wise vs pre-assembled delivery with interleaved streams"),
  "C10": ("bussim", "3.C10", "N filtered listeners and one unfiltered listener on the same bus history, position-wise comparison against the permitted() predicate, configurations from a generator (numbers, ids in any case, mixed, claim PGN, duplicates, multi-definition ids, network map)",
          "exception of the unfiltered decoder counts as nothing returned"),
- "C11": ("bussim", "3.C11", "bus histories with claims / re-claims / shared NAMEs / claims inside fast-packet messages on a virtual wall clock across the 10-minute discovery boundary; reference source map; safety (R1-R3) and completeness (R4) per input and listener",
+ "C11": ("bussim", "3.C11", "bus histories with claims / re-claims / shared NAMEs / claims inside fast-packet messages on a virtual wall clock across the 10-minute discovery boundary; reference source map; safety (R1-R3) and completeness (R4) per input and listener; one run in twelve is a client-level netsim session in which identities and the manufacturer filter must survive a reconnect",
          "identity attributes from an isolated decode of the same claim frame, NAME computed independently; unknown manufacturers and unclaimed sources after the window only judged for R1"),
  "C12": ("netsim", "3.C12", "virtual-time asyncio simulation of each real client against a simulated gateway: seeded packet streams x arbitrary segmentation x callback failures/delays, callback sequence compared with a synchronous reference decode",
          "packet-aligned EByte streams; busy sentinel, >64 KiB lines and EOF excluded (C13)"),
- "C13": ("netsim", "3.C13", "fault scripts on the simulated gateway (refuse/fail xk, EOF, EOF mid-packet, reset, accept-then-EOF, garbage-then-EOF, busy sentinel, failing write) at planned points, sweep of a fault at every loop iteration after accept; status/attempt/heartbeat traces; bounded liveness 120 virtual s after the last fault; stall detection at the I/O seam",
+ "C13": ("netsim", "3.C13", "fault scripts on the simulated gateway (refuse/fail xk, EOF, EOF mid-packet, reset, accept-then-EOF, garbage-then-EOF, busy sentinel, failing write, over-long lines, outages of > 1000 refusals) at planned points, sweep of a fault at every loop iteration after accept; status/attempt/heartbeat traces; bounded liveness 120 virtual s after the last fault; stall detection at the I/O seam",
          "back-off bound looser than the code's; write fault = connection_lost(exc) scheduled by the failing write"),
- "C14": ("netsim", "3.C14", "close()/connect()/send() injected at arbitrary loop iterations and virtual times of every session shape, sweep of close() at every iteration of base sessions; state sampled every iteration; gateway-side observations; task life-times; double execution for raising status callbacks",
+ "C14": ("netsim", "3.C14", "close()/connect()/send() injected at arbitrary loop iterations and virtual times of every session shape (also from inside the status and receive callbacks), sweep of close() at every iteration of base sessions; state sampled every iteration; gateway-side observations; task life-times; double execution for raising status callbacks",
          "an in-flight attempt may complete if shut within 5 virtual s and never reported; tasks done within 45 virtual s"),
  "C15": ("bussim", "3.C15", "dump file behind an in-memory file-system seam over bus histories with dump/PGN filter configurations; per-message JSON monitor (validity, from_json equivalence, re-encoding) over all 418 definitions with boundary-biased payloads",
          "dump ids offered in database case; no write faults; JSON half is input-sampled"),
  "C16": ("bussim", "3.C16", "interleaved multi-instance operation histories with junk inputs executed in forked children and compared with solo replays in pristine processes (I1), junk-free runs (I2), fresh-decoder probes (I3), configuration/encoder-counter checks (I4) and double execution (I5)",
          "worker processes never execute library code themselves, so every child starts from pristine module state"),
- "C19": ("netsim", "3.C19", "concurrent send() tasks with simulated flow control suspending drain(), unsendable messages, failing writes; byte stream recorded at the gateway parsed per source address and compared with a reference encoder (sequence counter masked)",
+ "C19": ("netsim", "3.C19", "concurrent send() tasks with simulated flow control suspending drain(), unsendable messages, failing writes, read-side faults while sends are queued, callers that time out; byte stream recorded at the gateway parsed per source address and compared with a reference encoder (sequence counter masked)",
          "write fault = connection_lost(exc) scheduled by the failing write; C13's oracles reused for recovery"),
  "C20": ("netsim", "3.C20", "noisy serial streams (valid, corrupted, truncated packets; marker-free / marker-bearing / AA-ending noise up to 16 KiB, 1 MiB in thorough) under arbitrary segmentation; window oracle (N1), resynchronisation oracle (N2), retained-bytes bound sampled every loop iteration (N3)",
          "retained bytes measured generically over the client's instance attributes; bound 256 bytes"),
